@@ -632,7 +632,9 @@ def run(ctx):
     FITS_INPUTS["S"] = (inp["S"], "AUTO_DETECT")     # single TAN tile
     # the history inputs include a pyramid deeper than 9 levels, so that histories pass through directory states whose
     # level names have more than one digit before an override / a reuse
-    hist_inputs = ["A", "MFG", "P"] if quick else ["A", "C", "MFHG", "P"]
+    # ... and a single-tile data set (TileLevels 0, SkyImage), whose recorded values coincide with a Builder's defaults
+    # in the tiling-related fields: only the astrometric and Place fields tell a restored description from a default one
+    hist_inputs = ["A", "MFG", "P", "S"] if quick else ["A", "S", "MFHG", "P"]
 
     def builder_study(scheme, image, mode):
         return wf("builder-%s-%s-%s" % (scheme.replace("/", ""), image, mode),
@@ -692,7 +694,9 @@ def run(ctx):
     fits_single = ["A", "B", "C", "T", "N", "S", "PA", "P"] + multi_toast + ([] if quick else ["D", "E", "NR"])
     for i in sorted(set(fits_single) | set(hist_inputs)):
         toast = i in ("C", "T", "P") or i.startswith("M")
-        flows.append(wf("fits-" + i, [fits_call(i)], "tile_fits-toast" if toast else "tile_fits-tan"))
+        # (fresh ; identical repeat: the shortest history with a reuse, for EVERY input class, with the full comparison of the
+        # returned description against the index after both calls)
+        flows.append(wf("fits-" + i, [fits_call(i), fits_call(i)], "tile_fits-toast" if toast else "tile_fits-tan"))
 
     def _checks(pool, pending):
         # ---------------------------------------------------------------- (a) naming: theorems + table from TLC
@@ -807,7 +811,7 @@ def run(ctx):
             # (the 10-level input costs ~1 s per tiling: its 3-call histories are sampled, the family below has it in
             # both roles - as the deep earlier state that is overridden, and as the new content)
             core = set(hist_inputs[:2])
-            family = [h for h in allh if stale_shape(h)]
+            family = [h for h in allh if stale_shape(h) and not h[0]["override"]]     # (override is immaterial for the first call)
             base3 = [h for h in allh if len(h) == 3 and set(st["input"] for st in h) <= core]
             rest = [h for h in allh if not stale_shape(h) and h not in base3]
             picked = family + rng.sample(rest, min(8, len(rest)))
@@ -823,7 +827,7 @@ def run(ctx):
         # through `toasty view`; explored to 3 calls.  Thorough replays every such history; quick replays, for every
         # 2-call beginning (interrupted X ; any call), one seeded 3-call continuation, plus a seeded sample of the
         # histories whose interrupted call comes second or third.
-        ipops = {i: pops[i] for i in (hist_inputs[:2] if quick else [i for i in hist_inputs if i != "C"])}
+        ipops = {i: pops[i] for i in (["A", "MFG", "S"] if quick else hist_inputs)}
         imod = {"MCWtmlHistory.tla": history_module(ipops, FITS_EXT, 3, only_interrupted=True)}
         icfg = dict(cfg, maxlen=3, fails=1, views="TRUE")
         ri = ctx.tlc("MCWtmlHistory", extra=imod, cfg_text=HISTORY_CFG % icfg, workers=4, timeout=1800)
@@ -982,7 +986,7 @@ def run(ctx):
                     st = spec[k]
                     kind = st["kind"]
                 else:
-                    st, kind = None, "fresh"
+                    st, kind = None, ("fresh" if not o["existed"] else ("override" if w["steps"][k][1]["override"] else "reuse"))
                 rep = {"workflow": w["name"], "steps": _steps(w)[:k + 1], "out_dir_spelling": w.get("path_style", "abs"),
                        "note": "all calls of a history are made by one process"}
                 where = "%s call %d (%s; out_dir spelled %s)" % (w["name"], k + 1, " ; ".join(_steps(w)[:k + 1]), w.get("path_style", "abs"))
